@@ -351,6 +351,7 @@ def run(ctx):
                if got != want else "inserted and looked-up keys both go through %s()" % want)
     canonical_whole_name(ctx)
     dotdot_does_not_cancel_dotdot(ctx)
+    search_directories_absolute_before_chdir(ctx)
 
 def canonical_whole_name(ctx):
     """R17.6: once-only inclusion and `is this a command-line file` compare canonical names.  Two spellings of one file
@@ -416,3 +417,75 @@ def dotdot_does_not_cancel_dotdot(ctx):
         ctx.ob("R17.8", "standardize|pop_back#%d|previous-is-not-dotdot" % i, ok, f.loc(c),
                "pop_back() is %sbehind `components.back() != \"..\"`" % ("" if ok else "NOT "))
     ctx.floor("R17.8", "pop_back sites in standardize", len(pops), 2)
+
+
+def _reaches_avoiding(f, src, via, sink):
+    """True if `sink` can be reached from just after `src` without executing any node of `via` (element-granular walk
+    over the CFG; all arguments are tree nodes)."""
+    cfg = f.cfg
+    ls, lk = cfg.locate(src), cfg.locate(sink)
+    if ls is None or lk is None:
+        return True
+    stops = {}
+    for v in via:
+        lv = cfg.locate(v)
+        if lv is not None:
+            stops.setdefault(lv[0], []).append(lv[1])
+    seen = set()
+    stack = [(ls[0], ls[1] + 1)]
+    while stack:
+        b, i = stack.pop()
+        if (b, i > 0) in seen:
+            continue
+        seen.add((b, i > 0))
+        cut = min([j for j in stops.get(b, []) if j >= i], default=None)
+        if lk[0] == b and lk[1] >= i and (cut is None or lk[1] < cut):
+            return True
+        if cut is not None:
+            continue
+        blk = cfg.blocks[b]
+        if blk.noret:
+            continue
+        for s in blk.succs:
+            if s is not None:
+                stack.append((s, 0))
+    return False
+
+
+def search_directories_absolute_before_chdir(ctx):
+    """R17.9: interrogate's main changes directory (-srcdir) AFTER the options were read.  A directory given with -I/-S is
+    looked up later, from the new working directory: it names the directory the user meant only if it was made absolute
+    while the old working directory was still current.  Each search path has its own copy of the name, so each append
+    needs it.  (Seed S8-C17: make_absolute() moved below the first of two append_directory() calls.)"""
+    db = ctx.db
+    ctx.rule("R17.9", "in a function that calls Filename::chdir(), every append_directory(v)/append_path(v) is reached from each assignment of v only through v.make_absolute()")
+    n = 0
+    for f in db.functions:
+        if not f.file.endswith(("interrogate.cxx", "interrogate_module.cxx", "parse_file.cxx")):
+            continue
+        if not any(c.get("k") == "call" and c.get("f") == "Filename::chdir" for c in f.walk()):
+            continue
+        for c in f.walk():
+            if not (c.get("k") == "call" and callee_short(c) in ("append_directory", "prepend_directory", "append_path", "prepend_path") and "this" in c and c.get("a")):
+                continue
+            n += 1
+            r = local_ref(c["a"][0])
+            path = show(c["this"])
+            if r is None:
+                ctx.ob("R17.9", "%s|%s(%s)|absolute-before-chdir" % (f.name, path, show(c["a"][0]).replace(" ", "")), False, f.loc(c),
+                       "the directory appended is not a local Filename that was made absolute")
+                continue
+            d = r["d"]
+            srcs = [y for y in f.walk() if (assigned_target(y) and (local_ref(assigned_target(y)[0]) or {}).get("d") == d) or
+                    (y.get("k") == "call" and callee_short(y) == "operator=" and y.get("a") and (local_ref(y["a"][0]) or {}).get("d") == d)]
+            for y in f.walk():
+                if y.get("k") == "decls":
+                    for dd in y["d"]:
+                        if dd.get("d") == d:
+                            srcs.append(y)
+            via = [y for y in f.walk() if y.get("k") == "call" and callee_short(y) == "make_absolute" and "this" in y and (local_ref(y["this"]) or {}).get("d") == d]
+            bad = [y for y in srcs if _reaches_avoiding(f, y, via, c)]
+            ctx.ob("R17.9", "%s|%s.%s(%s)|absolute-before-chdir" % (f.name, path, callee_short(c), r.get("n")), not bad and bool(srcs), f.loc(c),
+                   "`%s` is made absolute between each of its %d assignment(s) and this append" % (r.get("n"), len(srcs)) if not bad else
+                   "`%s` reaches this append as it was spelled on the command line (assignment at %s), but main() changes directory before the path is used" % (r.get("n"), f.loc(bad[0])))
+    ctx.floor("R17.9", "search-path appends in a main() that changes directory", n, 3)
